@@ -47,4 +47,8 @@ extern unsigned g_sel_win; extern int g_sel_seen, g_sel_stop, g_group_stop, g_eo
 extern unsigned g_nsel_read;
 extern int g_no_mtfv;
 
+extern int g_hdr_stop;
+struct decoder_state;
+void verif_retrieve_header_done(struct decoder_state *ds, unsigned alpha_size, unsigned num_trees, unsigned num_selectors, const unsigned char *map);
+
 #endif
